@@ -78,10 +78,141 @@ def index_bound_violations(func):
                     if isinstance(x, ast.AugAssign) and isinstance(x.target, ast.Name) and x.target.id == l.id and isinstance(x.op, ast.Add) \
                             and isinstance(x.value, ast.Constant) and isinstance(x.value.value, int) and x.value.value != 1:
                         out.append((x.lineno, 'the scan of %s advances by %d: entries are skipped' % (seq, x.value.value)))
+                    elif isinstance(x, ast.AugAssign) and isinstance(x.target, ast.Name) and x.target.id == l.id and isinstance(x.op, ast.Sub) \
+                            and isinstance(x.value, ast.Constant) and isinstance(x.value.value, int) and x.value.value > 0:
+                        out.append((x.lineno, 'the scan of %s moves %s backwards while the loop waits for it to reach the end' % (seq, l.id)))
             if reads and isinstance(op, ast.LtE):
                 out.append((c.lineno, '%s[%s] is read while %s' % (seq, l.id, ast.unparse(c))))
             elif reads and isinstance(op, ast.Lt) and unguarded:
                 out.append((c.lineno, '%s[%s] is read while (%s): the bound is only one alternative of an `or`' % (seq, l.id, ast.unparse(w.test))))
+    return out
+
+
+def falls_off_the_end(func):
+    """True when the last statement reached on some path of the function body is neither `return <value>` nor `raise`
+    (the caller then receives None).  Judged structurally: if/else, try, with, match by their last statements;
+    complementary `if t: return a` / `if not t: return b` at the end count as returning; a body that ends in a loop
+    or in anything not understood is NOT judged (False)."""
+    def returns(block):
+        """True: every path through block ends in return <value> / raise; False: some path falls through; None: unknown"""
+        if not block:
+            return False
+        last = block[-1]
+        if isinstance(last, ast.Return):
+            return last.value is not None and not (isinstance(last.value, ast.Constant) and last.value.value is None)
+        if isinstance(last, ast.Raise):
+            return True
+        if isinstance(last, ast.If):
+            a = returns(last.body)
+            if last.orelse:
+                b = returns(last.orelse)
+                if a is None or b is None:
+                    return None
+                return a and b
+            # complementary test right in front
+            if a and len(block) >= 2 and isinstance(block[-2], ast.If) and not block[-2].orelse and returns(block[-2].body):
+                def strip(t, pos=True):
+                    while isinstance(t, ast.UnaryOp) and isinstance(t.op, ast.Not):
+                        t, pos = t.operand, not pos
+                    return ast.dump(t), pos
+                d1, p1 = strip(block[-2].test)
+                d2, p2 = strip(last.test)
+                if d1 == d2 and p1 != p2:
+                    return True
+            return False if a is not None else None
+        if isinstance(last, ast.With):
+            return returns(last.body)
+        if isinstance(last, ast.Try):
+            parts = [returns(last.body + last.orelse)] + [returns(h.body) for h in last.handlers]
+            if last.finalbody and returns(last.finalbody):
+                return True
+            if None in parts:
+                return None
+            return all(parts)
+        if isinstance(last, (ast.For, ast.While, ast.Match)):
+            return None
+        return False
+    return returns(func.node.body) is False
+
+
+def crossed_arguments(func, calls):
+    """a call of a repository function in which two positional arguments are each named after the OTHER one's parameter
+    (f(filename, options) called as f(options, filename); n1 / n2 exchanged) and neither is named after its own: the two
+    were swapped.  Names are the trailing identifier of the argument expression; they match when equal, or when they
+    share a word (split at `_`, trailing digits dropped) of three letters or more.  -> [(callee qualname, line, text)]"""
+    def ident(e):
+        if isinstance(e, ast.Name):
+            return e.id
+        if isinstance(e, ast.Attribute):
+            return e.attr
+        return None
+    def words(s):
+        return {w.rstrip('0123456789') for w in s.lower().split('_') if len(w.rstrip('0123456789')) >= 3}
+    def match(a, p):
+        return a == p or bool(words(a) & words(p))
+    out = []
+    for node, cs in calls:
+        cs = [c for c in cs if c is not None]
+        if len(cs) != 1 or any(isinstance(a, ast.Starred) for a in node.args) or len(node.args) < 2:
+            continue
+        g = cs[0]
+        params = [a.arg for a in g.node.args.posonlyargs + g.node.args.args]
+        if g.cls and params and params[0] in ('self', 'cls') and not (isinstance(node.func, ast.Attribute) and isinstance(node.func.value, ast.Name) and node.func.value.id == g.cls):
+            params = params[1:]
+        if g.name == '__init__' and params and params[0] == 'self':
+            params = params[1:]
+        names = [ident(a) for a in node.args]
+        for i in range(min(len(names), len(params))):
+            for j in range(i + 1, min(len(names), len(params))):
+                ai, aj, pi, pj = names[i], names[j], params[i], params[j]
+                if ai is None or aj is None:
+                    continue
+                if match(ai, pj) and match(aj, pi) and not match(ai, pi) and not match(aj, pj):
+                    out.append((g.qualname, node.lineno, '%s(... %s, %s ...) against parameters (... %s, %s ...)' % (g.name, ai, aj, pi, pj)))
+    return out
+
+
+def returns_a_value(func):
+    """some `return <expr>` (other than `return None`) or a yield in the function's own body"""
+    nested = set()
+    for n in ast.walk(func.node):
+        if n is not func.node and isinstance(n, (ast.FunctionDef, ast.Lambda, ast.ClassDef)):
+            nested |= {id(x) for x in ast.walk(n) if x is not n}
+    for n in ast.walk(func.node):
+        if id(n) in nested:
+            continue
+        if isinstance(n, (ast.Yield, ast.YieldFrom)):
+            return True
+        if isinstance(n, ast.Return) and n.value is not None and not (isinstance(n.value, ast.Constant) and n.value.value is None):
+            return True
+    return False
+
+
+def procedure_results_used(func, calls):
+    """calls = [(call node, [resolved callee Func])] of func.  A call whose every resolved callee never returns a value
+    (no `return <expr>`, no yield; constructors excepted) and whose result is nevertheless USED - assigned, passed on,
+    subscripted, iterated, compared, concatenated - evaluates to None there: the `return` of the callee was lost.
+    A bare call statement and `return f(...)` are not uses.  -> [(callee qualname, line)]"""
+    parent = {}
+    for n in ast.walk(func.node):
+        for ch in ast.iter_child_nodes(n):
+            parent[id(ch)] = n
+    out = []
+    repo = _current_repo[0]
+    for node, cs in calls:
+        cs = [c for c in cs if c is not None]
+        fn = node.func
+        if repo is not None and isinstance(fn, ast.Attribute) and isinstance(fn.value, ast.Attribute) and isinstance(fn.value.value, ast.Name) and fn.value.value.id == 'self' and func.cls:
+            c_ = constructed_attrs(repo).get(func.cls, {}).get(fn.value.attr)       # self.x = Class() in this class decides the receiver
+            if c_ is not None:
+                m = repo.classes.get(c_, {}).get(fn.attr)
+                cs = [m] if m is not None else []
+        if not cs or any(c.name == '__init__' or returns_a_value(c) for c in cs):
+            continue
+        par = parent.get(id(node))
+        if par is None or isinstance(par, (ast.Expr, ast.Return, ast.Lambda)):
+            continue              # a statement, a pass-through, or the body of a lambda (whose caller decides)
+        out.append((cs[0].qualname, node.lineno))
     return out
 
 
